@@ -300,6 +300,9 @@ func (s *shaper) callTok(call ssa.CallInstruction) (tok, bool) {
 				if !s.streamArg(a) && t.Dir == "" {
 					if _, isW := a.Type().Underlying().(*types.Interface); !isW {
 						t.Dir = "arg"
+						if t.Field == "" {
+							t.Field = fieldOfValue(a, "write")
+						}
 					}
 				}
 			}
@@ -468,7 +471,9 @@ func (s *shaper) blockToks(b *ssa.BasicBlock) []tok {
 				t.Field = fieldOfValue(t.Val, t.Dir)
 			}
 			if t.Kind == "sub" {
-				t.Field = fieldOfValue(t.Val, "read")
+				if f := fieldOfValue(t.Val, "read"); f != "" || t.Dir != "arg" {
+					t.Field = f // (a sub-writer keeps the field of the value it was handed)
+				}
 			}
 			out = append(out, t)
 		}
